@@ -1,5 +1,6 @@
 import LeptosModel.Model.Reactive
 import LeptosModel.Proofs.ReactiveTopEff
+import LeptosModel.Proofs.ReactiveJust
 /-!
 # C01 — derived values equal a from-scratch recomputation
 
@@ -79,5 +80,32 @@ example :
     WF c01ProgE = true ∧ progTracked c01ProgE = true ∧ isData c01ProgE 4 = true ∧
     (step c01ProgE (run c01ProgE ops) (.read 4)).2 = some (specVal c01ProgE (run c01ProgE ops) 4) ∧
     specVal c01ProgE (run c01ProgE ops) 4 = 22 := by decide +kernel
+
+/-! ## untracked reads (`untrack(..)`)
+
+For programs whose bodies also use untracked reads the from-scratch value is not the reference
+(an untracked read contributes the value it had when the memo last ran).  `evalSnap ρ b U`
+(`Proofs/ReactiveBasic.lean`) evaluates body `b` with tracked reads taken from `ρ` and the k-th
+executed untracked read taken from the k-th element of the snapshot list `U`. -/
+
+/-- **untracked reads**: for every WF program (tracked and untracked reads, effects with writes) and
+every history, the value returned by a read of memo `m` equals its body evaluated with every TRACKED
+read replaced by what a read of that node returns right afterwards (its current, up-to-date value) and
+the untracked reads replaced by some snapshot `U`.  (Not expressed: that `U` consists of the values the
+untracked nodes had when `m` last ran — the model keeps no ghost record of untracked reads.)
+For bodies without untracked reads `evalSnap ρ b U = (evalPure ρ b, U)` (`evalSnap_tracked`). -/
+theorem C01_untracked_snapshot :
+    ∀ (p : Prog) (ops : List Op) (m : Nat) (b : Expr), WF p = true → p[m]? = some (.memo b) →
+      ∃ U : List Int, (step p (run p ops) (.read m)).2 =
+        some (evalSnap (fun x => ((step p (step p (run p ops) (.read m)).1 (.read x)).2).getD 0) b U).1 :=
+  fun _ ops m b hwf hb => read_snapshot hwf ops m b hb
+
+/-- sanity: `m = s0 + untrack(s1)`; after `s1 := 5` the memo keeps the snapshot 0, after `s0 := 1` it re-runs -/
+example :
+    let p : Prog := [.sig 0, .sig 0, .memo (.add (.rd true 0) (.rd false 1))]
+    WF p = true ∧ progTracked p = false ∧
+    (step p (run p [.read 2, .set 1 5]) (.read 2)).2 = some 0 ∧
+    specVal p (run p [.read 2, .set 1 5]) 2 = 5 ∧
+    (step p (run p [.read 2, .set 1 5, .set 0 1]) (.read 2)).2 = some 6 := by decide +kernel
 
 end Leptos.Reactive
